@@ -44,12 +44,12 @@ func init() {
 			d.Rule = "one run = 1 publisher (real RTSP/TCP record session or harness stream), 2-5 consumers over {rtsp-tcp, rtsp-udp, rtsp-multicast, ws-rtsp, wsp, http-flv, ws-flv} joining after tape-chosen delays, some leaving early, 30-90 packets (video/audio/RTCP, 20..20000 bytes); " +
 				"each RTP client's frames per channel map to strictly increasing published indices with byte-identical payloads, and every packet published after its PLAY answer arrives (to the end, or to its departure); FLV clients: valid FLV whose NAL/AAC payloads are published units in order, at most once. " +
 				"distinct = decision-sequence hash; non-trivial = at least one pre-emption"
-			d.RequiredProbes = []string{"fan.kind.tcp", "fan.kind.udp", "fan.kind.ws", "fan.kind.wsp", "fan.kind.flv", "fan.kind.wsflv", "fan.kind.mcast", "fan.real-pusher", "fan.left-early", "fan.complete-run-checked"}
+			d.RequiredProbes = []string{"fan.kind.tcp", "fan.kind.udp", "fan.kind.ws", "fan.kind.wsp", "fan.kind.flv", "fan.kind.wsflv", "fan.kind.mcast", "fan.real-pusher", "fan.left-early", "fan.complete-run-checked", "fan.wsp-pause-resume"}
 		} else {
 			d.Rule = "same scenario, plus RTSP/TCP and HTTP-FLV clients that stop reading for good (2 KiB window: the server's delivery goroutine blocks in a write); the stream ends by {publisher disconnect, publisher TEARDOWN, replacement by a new publisher, DELETE /api/v1/streams, Unregist, server shutdown} while consumers are attached, attaching or leaving; " +
 				"every attached client sees its connection closed by the server within 5 simulated seconds, the ended stream's consumer count is 0 (never negative at any sample), rtsp/flv/wsp active counters return to their start values, no UDP socket stays open, no session/delivery/conversion goroutine survives. " +
 				"distinct = decision-sequence hash; non-trivial = at least one pre-emption"
-			d.RequiredProbes = []string{"fan.end.disconnect", "fan.end.teardown", "fan.end.replace", "fan.end.delete", "fan.end.shutdown", "fan.end.unregist", "fan.attach-near-end", "fan.eof-checked", "fan.stalled-client-at-end"}
+			d.RequiredProbes = []string{"fan.end.disconnect", "fan.end.teardown", "fan.end.replace", "fan.end.delete", "fan.end.shutdown", "fan.end.unregist", "fan.attach-near-end", "fan.eof-checked", "fan.stalled-client-at-end", "fan.count-audited", "fan.left-after-replacement"}
 		}
 		Register(d)
 	}
@@ -70,6 +70,11 @@ type fanConsumer struct {
 	audio      bool
 	stallAfter time.Duration // >0 (tcp, flv): the client stops reading this long after its PLAY/GET answer and never resumes
 	stalled    bool
+	pauseFirst bool // wsp: PLAY, PAUSE, PLAY before the judged part begins
+	dataOnly   bool // wsp leaver: only the data channel goes away; the server has to notice on its next write and end the session
+	ctlClosed  bool
+	leftAt     time.Time
+	done       bool // the client task has returned
 
 	cl       *rtspClient
 	ip       string         // udp: the client's address; mcast: the group address
@@ -128,8 +133,12 @@ func buildSvcFan(tier string, prop string) sim.Scenario {
 			}
 			if tp.OneIn(4) {
 				c.leaveAfter = time.Duration(1+tp.Choose(int(span/time.Millisecond)+1)) * time.Millisecond
+				c.dataOnly = c.kind == "wsp" && tp.Bool()
 			} else if (c.kind == "tcp" || c.kind == "flv") && tp.OneIn(3) {
 				c.stallAfter = time.Duration(1+tp.Choose(int(span/time.Millisecond)/2+1)) * time.Millisecond
+			}
+			if c.kind == "wsp" {
+				c.pauseFirst = tp.OneIn(3)
 			}
 			cons = append(cons, c)
 			w.Probe("fan.kind." + c.kind)
@@ -252,6 +261,7 @@ func buildSvcFan(tier string, prop string) sim.Scenario {
 			cwg.Add(1)
 			w.Go(c.name, func() {
 				defer cwg.Done()
+				defer func() { c.done = true }()
 				if c.joinDelay > 0 {
 					w.Sleep(c.joinDelay)
 				}
@@ -259,10 +269,53 @@ func buildSvcFan(tier string, prop string) sim.Scenario {
 			})
 		}
 
+		// audit: the stream's consumer count against what the clients did (a leaver may legitimately linger where
+		// the server can only notice on its next write; a multicast group is one consumer)
+		audit := func(when string) bool {
+			min, max := 0, 0
+			mcMin, mcMax := 0, 0
+			now := time.Now()
+			for _, c := range cons {
+				definite, maybe := false, false
+				switch {
+				case c.played && c.eof: // already closed by the server
+				case c.played && !c.left:
+					definite = true
+				case c.played && c.left:
+					maybe = c.kind == "flv" || c.kind == "wsflv" || c.dataOnly || now.Sub(c.leftAt) < time.Millisecond
+				case !c.played && !c.done:
+					maybe = true
+				}
+				if c.kind == "mcast" {
+					if definite {
+						mcMin, mcMax = 1, 1
+					} else if maybe && mcMax == 0 {
+						mcMax = 1
+					}
+					continue
+				}
+				if definite {
+					min++
+					max++
+				} else if maybe {
+					max++
+				}
+			}
+			min, max = min+mcMin, max+mcMax
+			if n := oldStream.ConsumerCount(); n < min || n > max {
+				w.Fail("C03/count-mismatch", "%s the stream counts %d consumer(s); by what the clients did it must be between %d and %d (clients that left and whose departure the server has seen are not attached, every client still playing is)", when, n, min, max)
+				return false
+			}
+			w.Probe("fan.count-audited")
+			return true
+		}
 		pwg.Wait()
 		w.Sleep(time.Second)
 		sample()
 		if w.Failed() {
+			return
+		}
+		if prop == "C03" && !audit("one second after the last packet") {
 			return
 		}
 		// ---- the stream ends ----
@@ -293,7 +346,25 @@ func buildSvcFan(tier string, prop string) sim.Scenario {
 			media.Unregist(oldStream)
 		}
 		sample()
-		w.Sleep(10 * time.Second)
+		if endCause == "replace" {
+			// one client of the replaced stream leaves while the old publisher is still there: its consumer must go from the OLD stream
+			w.Sleep(3 * time.Second)
+			for _, c := range cons {
+				if c.played && !c.left && !c.stalled && !c.done && (c.kind == "tcp" || c.kind == "ws" || c.kind == "wsp") && c.playedAt.Before(endAt) {
+					c.left, c.leftN, c.leftAt = true, pubN(), time.Now()
+					c.cl.close()
+					w.Probe("fan.left-after-replacement")
+					break
+				}
+			}
+			w.Sleep(3 * time.Second)
+			if prop == "C03" && !audit("after a client left the replaced stream") {
+				return
+			}
+			w.Sleep(4 * time.Second)
+		} else {
+			w.Sleep(10 * time.Second)
+		}
 		sample()
 		// whatever replaced the stream ends too, so that late joiners are released as well
 		if pusher2 != nil {
@@ -321,6 +392,18 @@ func buildSvcFan(tier string, prop string) sim.Scenario {
 			for _, c := range cons {
 				if !c.played {
 					continue
+				}
+				if c.left && c.dataOnly && !c.ctlClosed {
+					more := 0
+					for i := c.leftN; i < len(pubs); i++ {
+						if ch := pubs[i].p.Channel; ch == 0 || (c.audio && ch == 2) {
+							more++
+						}
+					}
+					if more >= 2 {
+						w.Fail("C03/not-closed", "wsp client %s: its data channel broke, %d more packets of its tracks were published, yet the server never closed the control channel (the session and its consumer stay)", c.name, more)
+						return
+					}
 				}
 				if c.left {
 					continue
@@ -640,6 +723,23 @@ func fanConsume(w *sim.World, sw *svcWorld, c *fanConsumer, base string, pubN fu
 				c.ports["5002"], c.ports["5003"] = 2, 3
 			}
 		}
+		if c.pauseFirst { // PLAY, PAUSE, PLAY: the session must end up attached exactly once
+			w.Probe("fan.wsp-pause-resume")
+			w.Sleep(time.Duration(5+w.Tape.Choose(40)) * time.Millisecond)
+			if m, err := c.cl.do("PAUSE", base, nil, ""); err != nil || m.Status != 200 {
+				c.note = fmt.Sprintf("PAUSE: %v %+v", err, m)
+			}
+			w.Sleep(time.Duration(5+w.Tape.Choose(40)) * time.Millisecond)
+			if m, err := c.cl.do("PLAY", base, nil, ""); err != nil || m.Status != 200 {
+				c.note = fmt.Sprintf("second PLAY: %v %+v", err, m)
+				c.cl.close()
+				return
+			}
+			w.Sleep(time.Millisecond)
+			c.cl.fmu.Lock()
+			c.cl.frames = nil // what arrived around the pause is not judged
+			c.cl.fmu.Unlock()
+		}
 		// the answer may precede the attach inside the server (response first, StartConsume second):
 		// once a fake-clock sleep returned, every runnable server goroutine has run until it blocked
 		w.Sleep(time.Millisecond)
@@ -653,9 +753,24 @@ func fanConsume(w *sim.World, sw *svcWorld, c *fanConsumer, base string, pubN fu
 			fanStall(w, c, c.cl.c)
 			return
 		}
+		if c.dataOnly { // the control channel stays; frames are collected by the data reader
+			w.Sleep(stay)
+			c.left, c.leftN, c.leftAt = true, pubN(), time.Now()
+			w.Probe("fan.left-early")
+			w.Fault("wsp-data-channel-breaks")
+			c.cl.data.Close()
+			if err := c.cl.drain(10 * time.Minute); err == io.EOF || !isTimeout(err) {
+				c.ctlClosed = true
+			}
+			c.cl.close()
+			return
+		}
 		err = c.cl.drain(stay)
+		if c.left { // told to leave by the scenario (its connection was closed under it)
+			return
+		}
 		if c.leaveAfter > 0 && isTimeout(err) {
-			c.left, c.leftN = true, pubN()
+			c.left, c.leftN, c.leftAt = true, pubN(), time.Now()
 			if c.kind == "mcast" {
 				c.dgEnd = groupLen(c.ip)
 			}
@@ -697,7 +812,7 @@ func fanConsume(w *sim.World, sw *svcWorld, c *fanConsumer, base string, pubN fu
 		cc.SetReadDeadline(time.Now().Add(stay))
 		_, err := io.Copy(&c.flv, br)
 		if c.leaveAfter > 0 && isTimeout(err) {
-			c.left, c.leftN = true, pubN()
+			c.left, c.leftN, c.leftAt = true, pubN(), time.Now()
 			w.Probe("fan.left-early")
 		} else if err == nil || !isTimeout(err) {
 			c.eof, c.eofAt = true, time.Now()
@@ -719,7 +834,7 @@ func fanConsume(w *sim.World, sw *svcWorld, c *fanConsumer, base string, pubN fu
 			_, b, err := ws.ReadMessage()
 			if err != nil {
 				if c.leaveAfter > 0 && isTimeout(err) {
-					c.left, c.leftN = true, pubN()
+					c.left, c.leftN, c.leftAt = true, pubN(), time.Now()
 					w.Probe("fan.left-early")
 				} else if !isTimeout(err) {
 					c.eof, c.eofAt = true, time.Now()
